@@ -119,7 +119,7 @@ def run(chk):
             continue
         canon_n = {"p_canonization": 3, "n_canonization": 4, "npn_canonization": 3}
         for n in range(0, nmax + 1):
-            if name in canon_n and n > canon_n[name] + (1 if chk.tier == "thorough" else 0):
+            if name in canon_n and n > canon_n[name] + (1 if chk.tier == "thorough" and name != "npn_canonization" else 0):
                 continue
             vals = [api.valid_values(c, n) for c in cs]
             if "luts" in cs:
